@@ -8,6 +8,8 @@
 //!   crash   child processes killed before / after / during `commit`; parent reopens and dumps
 //!   cstore  the chain-level layer `grin_chain::store::{ChainStore, Batch}`: nested typed batches,
 //!           typed getters through the batch / a child / the parent / the plain store on two threads
+//!   selfiter  a batch started while the CALLING thread holds an open iterator and a resize is due
+//!           (every outcome of the "transactions are open" branch of maybe_resize), then growth
 //!   frag    fragmented free space (deletes / overwrites of a large share of the data) followed by
 //!           growth with multi-page values: resizes must come in time, no put / commit may fail
 //!   crash-child <dir> <kind> <n>   (internal: the process that gets killed)
@@ -3249,6 +3251,470 @@ fn out_of_order_note(cx: &mut Cx, lp: &[u64]) {
 	));
 }
 
+
+// ---------------------------------------------------------------------------------------------
+// mode selfiter (third part of the resize family): the "transactions are open" branch of
+// `Store::maybe_resize` in all its outcomes.  For every case a fresh environment is filled by plain
+// batches until a resize is due (usage by last page above 90 % of the map); then ONE batch is
+// started while
+//   other        an iterator is open on ANOTHER thread (batch() has to wait for it, then resized)
+//   same-after   the CALLING thread itself holds an open `Store::iter` iterator, dropped after commit
+//   same-before  … dropped inside the batch, before the commit
+//   both         own iterator and one on the other thread
+//   nested       own iterator -> batch -> child batch (committed) -> commit -> iterator dropped
+//   same-drop    own iterator, the batch is DROPPED, then the iterator
+//   peer         the own iterator belongs to a second `Store` handle on the same environment
+//                (another database name: chain store / peer store share one env per path)
+//   two          two own iterators (both handles), dropped one before and one after the commit
+// (with an own transaction open the batch proceeds on the old map and the resize is postponed);
+// afterwards plain batches with nothing else open - the first one either at once (racing with the
+// waiter thread) or after a pause - until the map has been enlarged at least twice more.  No put /
+// commit may fail, a resize that is due with nothing open must happen, nothing may stall
+// (watchdog).  The own iterator is drained at its end: it must still be the snapshot from before
+// the batch.  Lines: the usual put / commit lines, `kv rz-batch …` (resize protocol model with its
+// guard flags, Model/KvResize.lean), `kv needs-resize` and `kv space` for the plain batches.
+// ---------------------------------------------------------------------------------------------
+#[derive(Clone, Copy, PartialEq, Debug)]
+enum SiCase {
+	Other,
+	SameAfter,
+	SameBefore,
+	Both,
+	Nested,
+	SameDrop,
+	Peer,
+	Two,
+}
+
+struct SiState {
+	/// the map size the environment has in memory, as far as the harness can know it (meta page
+	/// after the last commit)
+	cur_map: u64,
+	grown: u64,
+	batches: u64,
+	failed: u64,
+	skipped_due: u64,
+	progress: Arc<std::sync::atomic::AtomicU64>,
+	phase: Arc<std::sync::Mutex<String>>,
+}
+
+fn si_tick(si: &SiState, what: &str) {
+	si.progress.fetch_add(1, std::sync::atomic::Ordering::SeqCst);
+	*si.phase.lock().unwrap() = what.to_string();
+}
+
+type SiIter = Box<dyn Iterator<Item = Result<(Vec<u8>, Vec<u8>), Error>>>;
+
+/// one plain batch (nothing else open); returns false when an operation failed
+fn si_plain(cx: &mut Cx, dir: &str, si: &mut SiState, n: u64, settled: bool, what: &str) -> bool {
+	si_tick(si, what);
+	si.batches += 1;
+	let pre = meta_info(dir);
+	let store = cx.store();
+	let mut b = match store.batch() {
+		Ok(b) => b,
+		Err(e) => {
+			si.failed += 1;
+			cx.oracle_fail(format!("selfiter {}: Store::batch failed: {:?}", what, e));
+			cx.line("kv begin", "err");
+			return false;
+		}
+	};
+	cx.sh.stack.push(vec![]);
+	cx.st.op("begin");
+	cx.line("kv begin", "ok");
+	let db = *cx.rng.pick(&all_dbs());
+	let key = format!("v{:05}", n).into_bytes();
+	let len = cx.rng.range(30_000, 44_000) as usize;
+	let v = vec![(n % 249) as u8; len];
+	let mut ok = true;
+	let ans = fmt_unit(b.put(db, &key, &v));
+	if ans != "ok" {
+		ok = false;
+		si.failed += 1;
+		cx.oracle_fail(format!("selfiter {}: put of {} bytes failed (meta before the batch {:?}, map in memory {})", what, len, pre, si.cur_map));
+	} else {
+		cx.sh.write((db_id(db), key.clone()), Some(v.clone()));
+	}
+	cx.st.op("put");
+	cx.line(&format!("kv put {} {} {}", db_tok(db), hex(&key), valtok(&v)), &ans);
+	let ans = fmt_unit(b.commit());
+	if ans != "ok" {
+		ok = false;
+		si.failed += 1;
+		cx.oracle_fail(format!("selfiter {}: commit failed (meta before the batch {:?})", what, pre));
+		cx.sh.stack.pop();
+	} else {
+		cx.sh.commit();
+	}
+	cx.st.commits[1] += 1;
+	cx.line("kv commit", &ans);
+	si_tick(si, what);
+	if let (Some(pre), Some(post)) = (pre, meta_info(dir)) {
+		let used = pre.1 * 4096;
+		let due = used * 10 > 9 * si.cur_map;
+		if post.0 > si.cur_map {
+			si.grown += 1;
+		} else if due && ok {
+			si.skipped_due += 1;
+			cx.oracle_fail(format!(
+				"selfiter {}: a resize was due (used {} of a {} byte map, nothing open) but Store::batch() did not enlarge the map",
+				what, used, si.cur_map
+			));
+		}
+		cx.st.op("rz-batch");
+		cx.line(
+			&format!("kv rz-batch same=0 other=0 settled={} used={}", if settled { 1 } else { 0 }, used),
+			&post.0.to_string(),
+		);
+		if pre.0 == si.cur_map {
+			// the meta page was up to date: the stateless decision line as well
+			cx.st.op("needs-resize");
+			cx.line(
+				&format!("kv needs-resize {} {} {}", pre.0, used, 1_048_576),
+				&format!("{} {}", post.0 != pre.0, post.0),
+			);
+			cx.st.op("space");
+			cx.line(&format!("kv space {} {} {} {}", pre.0, pre.1, 12 + (15 + len as u64) / 4096 + 1, 1_048_576), if ok { "ok" } else { "fail" });
+		}
+		si.cur_map = post.0;
+	}
+	ok
+}
+
+fn si_open_iter(cx: &mut Cx, store: &Store, db: Db, model_lines: bool) -> Option<SiIter> {
+	match store.iter(db, kvpair) {
+		Ok(it) => {
+			let mut it: SiIter = Box::new(it);
+			if model_lines {
+				cx.line(&format!("kv it-open main {}", db_tok(db)), "ok");
+				// partially consumed: one item
+				let mut v = vec![];
+				if let Some(Ok(kv)) = it.next() {
+					v.push(kv);
+				}
+				cx.line("kv it-next main 1", &fmt_items(&v));
+			} else {
+				let _ = it.next();
+			}
+			Some(it)
+		}
+		Err(e) => {
+			cx.oracle_fail(format!("selfiter: Store::iter on the calling thread failed: {:?}", e));
+			None
+		}
+	}
+}
+
+/// drain and drop an own iterator: it must yield the rest of the snapshot it was opened on
+fn si_close_iter(cx: &mut Cx, it: Option<SiIter>, model_lines: bool, snap_rest: &[(Vec<u8>, Vec<u8>)]) {
+	if let Some(it) = it {
+		if model_lines {
+			let mut v = vec![];
+			let mut bad = false;
+			for x in it {
+				match x {
+					Ok(kv) => v.push(kv),
+					Err(_) => {
+						bad = true;
+						break;
+					}
+				}
+			}
+			let ans = if bad { "err".to_string() } else { fmt_items(&v) };
+			let want = fmt_items(snap_rest);
+			if ans != want {
+				cx.oracle_fail(format!(
+					"selfiter: the iterator the writer thread held across its own batch yielded {} items / {} but its snapshot has {} items",
+					v.len(), &ans[..ans.len().min(120)], snap_rest.len()
+				));
+			}
+			cx.line("kv it-next main 1000000", &ans);
+			cx.line("kv it-close main", "ok");
+		} else {
+			drop(it);
+		}
+	}
+}
+
+fn si_case(cx: &mut Cx, dir: &str, peer: &Store, si: &mut SiState, case: SiCase, n: u64) {
+	let what = format!("case {:?}", case);
+	si_tick(si, &what);
+	si.batches += 1;
+	let pre = meta_info(dir);
+	let store = cx.store();
+	let snap_db = Some(b'A');
+	let snap: Vec<(Vec<u8>, Vec<u8>)> = Shadow::items(&cx.sh.committed, snap_db);
+	let snap_rest: Vec<(Vec<u8>, Vec<u8>)> = snap.iter().skip(1).cloned().collect();
+	// own iterators
+	let mut it_main: Option<SiIter> = None; // on the same handle, mirrored in the model lines
+	let mut it_peer: Option<SiIter> = None; // on the second handle (its database is not modelled)
+	let same = match case {
+		SiCase::Other => 0,
+		SiCase::Peer => {
+			it_peer = si_open_iter(cx, peer, None, false);
+			1
+		}
+		SiCase::Two => {
+			it_main = si_open_iter(cx, &store, snap_db, true);
+			it_peer = si_open_iter(cx, peer, None, false);
+			2
+		}
+		_ => {
+			it_main = si_open_iter(cx, &store, snap_db, true);
+			1
+		}
+	};
+	let other = if case == SiCase::Other || case == SiCase::Both {
+		let a = cx.reader.ask(Req::HoldFor(Some(b'B'), 130));
+		if a != "ok" {
+			cx.oracle_fail(format!("selfiter {}: reader could not open an iterator: {}", what, a));
+		}
+		1
+	} else {
+		0
+	};
+	let t0 = Instant::now();
+	let mut b = match store.batch() {
+		Ok(b) => b,
+		Err(e) => {
+			si.failed += 1;
+			cx.oracle_fail(format!("selfiter {}: Store::batch failed: {:?}", what, e));
+			cx.line("kv begin", "err");
+			return;
+		}
+	};
+	let el = t0.elapsed().as_millis();
+	si_tick(si, &what);
+	cx.sh.stack.push(vec![]);
+	cx.st.op("begin");
+	cx.line("kv begin", "ok");
+	let mut ok = true;
+	let mut put = |cx: &mut Cx, bb: &mut Batch<'_>, key: Vec<u8>, len: usize, ok: &mut bool| {
+		let v = vec![0xa5u8; len];
+		let ans = fmt_unit(bb.put(Some(b'A'), &key, &v));
+		if ans != "ok" {
+			*ok = false;
+			cx.oracle_fail(format!("selfiter {}: put of {} bytes failed inside the batch started with an own iterator open (meta {:?})", what, len, pre));
+		} else {
+			cx.sh.write((db_id(Some(b'A')), key.clone()), Some(v.clone()));
+		}
+		cx.st.op("put");
+		cx.line(&format!("kv put 65 {} {}", hex(&key), valtok(&v)), &ans);
+	};
+	put(cx, &mut b, format!("c{:05}", n).into_bytes(), 24_000, &mut ok);
+	if case == SiCase::Nested {
+		match b.child() {
+			Ok(mut c) => {
+				cx.sh.stack.push(vec![]);
+				cx.line("kv child", "ok");
+				put(cx, &mut c, format!("d{:05}", n).into_bytes(), 12_000, &mut ok);
+				let ans = fmt_unit(c.commit());
+				if ans != "ok" {
+					ok = false;
+					cx.oracle_fail(format!("selfiter {}: child commit failed", what));
+				}
+				cx.sh.commit();
+				cx.st.commits[2] += 1;
+				cx.line("kv commit", &ans);
+			}
+			Err(e) => {
+				ok = false;
+				cx.oracle_fail(format!("selfiter {}: Batch::child failed: {:?}", what, e));
+			}
+		}
+	}
+	// the plain store read on THIS thread (a nested transaction: other threads' reads wait while the
+	// resize is pending) does not see the batch's write
+	{
+		let key = format!("c{:05}", n).into_bytes();
+		let ans = fmt_get(&store.get_ser::<Vec<u8>>(Some(b'A'), &key, None));
+		if ans != "none" {
+			cx.oracle_fail(format!("selfiter {}: the plain store on the writer thread sees the uncommitted write: {}", what, ans));
+		}
+		cx.st.op("read-outside get");
+		cx.line(&format!("kv read-outside main get 65 {}", hex(&key)), &ans);
+	}
+	if case == SiCase::SameBefore || case == SiCase::Two {
+		// dropped inside the batch: the batch's own transaction keeps the resize waiting
+		let it = it_main.take();
+		si_close_iter(cx, it, true, &snap_rest);
+	}
+	let committed = case != SiCase::SameDrop;
+	if committed {
+		let ans = fmt_unit(b.commit());
+		if ans != "ok" {
+			ok = false;
+			cx.oracle_fail(format!("selfiter {}: commit failed (meta before the batch {:?})", what, pre));
+			cx.sh.stack.pop();
+		} else {
+			cx.sh.commit();
+		}
+		cx.st.commits[1] += 1;
+		cx.line("kv commit", &ans);
+	} else {
+		drop(b);
+		cx.sh.stack.pop();
+		cx.st.drops[1] += 1;
+		cx.line("kv drop", "ok");
+	}
+	if !ok {
+		si.failed += 1;
+	}
+	let post = meta_info(dir);
+	// the own iterators end after the batch
+	si_close_iter(cx, it_main.take(), true, &snap_rest);
+	si_close_iter(cx, it_peer.take(), false, &[]);
+	si_tick(si, &what);
+	if let (Some(pre), Some(post)) = (pre, post) {
+		let used = pre.1 * 4096;
+		if same == 0 && other == 1 {
+			if post.0 > si.cur_map {
+				si.grown += 1;
+				if el < 120 {
+					cx.oracle_fail(format!("selfiter {}: the map was resized inside a Store::batch() call that took only {} ms while another thread held an iterator for 130 ms", what, el));
+				}
+			} else {
+				cx.oracle_fail(format!("selfiter {}: a resize was due and only another thread's iterator was open, but the batch ran on the old map", what));
+			}
+		}
+		cx.st.op("rz-batch");
+		let res = if committed { post.0.to_string() } else { "dropped".to_string() };
+		cx.line(&format!("kv rz-batch same={} other={} settled=1 used={}", same, other, used), &res);
+		if committed {
+			si.cur_map = post.0;
+		}
+	}
+	cx.out.raw(&format!(
+		"#STAT selfiter {:?}: own iterators {} / on the other thread {}; Store::batch() returned after {} ms; map before {:?} -> after commit {:?}",
+		case, same, other, el, pre.map(|m| m.0), post.map(|m| m.0)
+	));
+}
+
+fn mode_selfiter(work: &str, seed: u64, thorough: bool) {
+	let progress = Arc::new(std::sync::atomic::AtomicU64::new(0));
+	let phase = Arc::new(std::sync::Mutex::new(String::new()));
+	{
+		// watchdog: a leaked `resizing` flag makes every later enter_tx spin for ever
+		let progress = progress.clone();
+		let phase = phase.clone();
+		thread::spawn(move || {
+			let mut last = (0u64, Instant::now());
+			loop {
+				thread::sleep(Duration::from_millis(500));
+				let p = progress.load(std::sync::atomic::Ordering::SeqCst);
+				if p != last.0 {
+					last = (p, Instant::now());
+				} else if last.1.elapsed() > Duration::from_secs(20) {
+					println!(
+						"\n#ORACLE-FAIL C18 selfiter: no progress for 20 s in {}: Store::batch() / a read does not return (the resize protocol's flags were not released?)",
+						phase.lock().unwrap()
+					);
+					std::process::exit(0);
+				}
+			}
+		});
+	}
+	let cases = [
+		SiCase::SameAfter,
+		SiCase::Other,
+		SiCase::SameBefore,
+		SiCase::Both,
+		SiCase::Nested,
+		SiCase::SameDrop,
+		SiCase::Peer,
+		SiCase::Two,
+	];
+	let rounds = if thorough { 3 } else { 1 };
+	let mut tot = (0u64, 0u64, 0u64, 0u64);
+	let mut sizes_all: Vec<String> = vec![];
+	for round in 0..rounds {
+		for (ci, case) in cases.iter().enumerate() {
+			let dir = format!("{}/selfiter{}_{}", work, round, ci);
+			let mut cx = Cx::new(&dir, seed ^ ((round * 16 + ci) as u64 * 0x51));
+			let peer = Store::new(&dir, None, Some("peer"), vec![], None, None).expect("second Store handle");
+			{
+				// something to iterate in the second handle's database
+				let mut pb = peer.batch().unwrap();
+				pb.put(None, b"peer1", b"x").unwrap();
+				pb.put(None, b"peer2", b"y").unwrap();
+				pb.commit().unwrap();
+			}
+			let map0 = meta_info(&dir).map(|m| m.0).unwrap_or(1_048_576);
+			cx.line(&format!("kv rz-new {} {}", map0, 1_048_576), "ok");
+			let mut si = SiState {
+				cur_map: map0,
+				grown: 0,
+				batches: 0,
+				failed: 0,
+				skipped_due: 0,
+				progress: progress.clone(),
+				phase: phase.clone(),
+			};
+			let mut sizes = vec![map0];
+			let mut n = 0u64;
+			// fill until a resize is due
+			loop {
+				let due = meta_info(&dir).map(|m| m.1 * 4096 * 10 > 9 * m.0).unwrap_or(false);
+				if due || n > 200 {
+					break;
+				}
+				si_plain(&mut cx, &dir, &mut si, n, true, "fill");
+				n += 1;
+			}
+			let grown_before = si.grown;
+			si_case(&mut cx, &dir, &peer, &mut si, *case, n);
+			n += 1;
+			if sizes.last() != Some(&si.cur_map) {
+				sizes.push(si.cur_map);
+			}
+			// keep writing with nothing else open until the map has been enlarged twice more; the
+			// first of these batches either races with the waiter thread or comes after a pause
+			let pause = (ci + round) % 2 == 0;
+			if pause {
+				thread::sleep(Duration::from_millis(260));
+			}
+			let mut first = true;
+			// the resize of the case itself (at once for `Other`, postponed to the first plain batch
+			// for the others) plus two more
+			let target = grown_before + 3;
+			while si.grown < target && n < 600 {
+				let okb = si_plain(&mut cx, &dir, &mut si, n, !first || pause, if first { "first plain batch after the case" } else { "growth after the case" });
+				first = false;
+				n += 1;
+				if sizes.last() != Some(&si.cur_map) {
+					sizes.push(si.cur_map);
+					cx.obs();
+				}
+				if !okb {
+					break;
+				}
+			}
+			if si.grown < target {
+				cx.oracle_fail(format!("selfiter case {:?}: after the case the map was enlarged only {} more times in {} batches ({:?})", case, si.grown - grown_before, n, sizes));
+			}
+			cx.obs();
+			cx.out.raw(&format!(
+				"#STAT selfiter {:?} round {}: batches {} map sizes {:?} ({} the first plain batch after the case); failed ops {}; due-but-skipped resizes {}",
+				case, round, si.batches, sizes, if pause { "pause before" } else { "no pause before" }, si.failed, si.skipped_due
+			));
+			tot.0 += si.batches;
+			tot.1 += si.failed;
+			tot.2 += si.skipped_due;
+			tot.3 += si.grown;
+			sizes_all.push(format!("{:?}:{}", case, sizes.len() - 1));
+			drop(peer);
+			cx.finish();
+		}
+	}
+	let mut out = Out::stdout();
+	out.raw(&format!(
+		"#STAT selfiter total: cases {} x rounds {}; batches {}; resizes {} ({}); failed ops {}; resizes due with nothing open but not done {}",
+		cases.len(), rounds, tot.0, tot.3, sizes_all.join(" "), tot.1, tot.2
+	));
+	out.flush();
+}
+
 fn main() {
 	quiet_panics();
 	let args: Vec<String> = std::env::args().collect();
@@ -3276,6 +3742,7 @@ fn main() {
 		"crash" => mode_crash(&work, seed, thorough),
 		"cstore" => mode_cstore(&work, seed, thorough),
 		"frag" => mode_frag(&work, seed, thorough),
+		"selfiter" => mode_selfiter(&work, seed, thorough),
 		_ => {
 			eprintln!("unknown mode {}", mode);
 			std::process::exit(2);
